@@ -8,7 +8,7 @@ TRUST = ("Trusted base: rustc/cargo and the std, futures 0.3.26 and tokio 1.26 l
 CHECKS = {
  "C01": dict(level="exploration", engine="R", design="6/C01",
    technique="differential property-based testing: proptest-driven typed chain generator, each chain compiled twice in one binary (through the real proc-macro and as the documented method chain with the same operand text) and run on generated inputs; results, callback traces and event multisets compared",
-   text="2 640 (quick) / 26 400 (thorough) typed chains over Option / Result / iterators / tuples / scalars, program i forced to contain operator spelling i mod 22 under macro name i mod 12, operands in six shapes, `~` at random positions, operator-bearing initial values; each runs on 48-128 inputs incl. None / Err / empty. A macro side that does not compile while the reference does is a violation; a reference side that does not compile is a generator bug (exit 2). One genuine defect found and fixed (initial value with a top-level operator was not parenthesised). In the async macros half of the chains run over real (immediately ready) futures and streams, half are sync chains closed by `-> ready`."),
+   text="2 640 (quick) / 26 400 (thorough) typed chains over Option / Result / iterators / tuples / scalars, program i forced to contain operator spelling i mod 22 under macro name i mod 12, operands in six shapes, `~` at random positions, operator-bearing initial values; each runs on 48-128 inputs incl. None / Err / empty. A macro side that does not compile while the reference does is a violation; a reference side that does not compile is a generator bug (exit 2). One genuine defect found and fixed in two steps (an initial value with a top-level operator was not parenthesised; nor was one handed in as a macro_rules! expr fragment). Operand evaluations are part of the ordered trace; every fifth round of spellings hands the operands in as expr fragments. In the async macros half of the chains run over real (immediately ready) futures and streams, half are sync chains closed by `-> ready`."),
  "C02": dict(level="exploration", engine="R", design="6/C02",
    technique="differential property-based testing: typed chains with program i forced to contain wrapper operator (i/3) mod 10 in closing mode i mod 3, against the hand-nested method chain `.x(|v| v inner...) rest`",
    text="Inner chains are generated goal-directed for the closure type each of the ten wrapper operators needs, nesting depth <= 3, empty bodies, inner block captures, explicit `<<<`, implicit close at a step end and at the branch end, operators after `<<<`; all 12 macro names. Open known finding: in try-async macros an error-side wrapper at the start of a step >= 1 whose body begins with a member access does not compile (error type lost by the Ok re-wrap); that class is excluded by construction."),
@@ -50,7 +50,7 @@ CHECKS = {
    text="Every single event position of each generated program (initial value, operand, callback, capture, handler expression, handler call) is made to panic in turn, under the all-succeed plan and (except the async try macros) under a plan with one failing callback; the panic must be observed by the caller and no later-step event may exist. Thread-spawning macros: the later siblings of the panicking branch are parked until the caller is back - a caller still blocked after 3 s (confirmed with 12 s) is a violation. Async: once the panic has been raised the future must panic at its next poll without any further pending point being opened, and is never left pending with nothing outstanding."),
  "C14": dict(level="exploration", engine="L", design="6/C14",
    technique="property-based testing (proptest, in process over join_impl): structure round trip - a generated chain structure is rendered to text and the parser must recover exactly it; exhaustive table of adjacent operator pairs",
-   text="All 23 operator spellings with every flag combination are enumerated pairwise (about 4 200 inputs) and 40 000 (quick) / 1 000 000 (thorough) random structures with adversarial operands (operator look-alikes inside groups, macros, literals, closure return types, turbofish, nested generics, if / match) are rendered and parsed back; proptest shrinks a failure to a minimal input; the thorough tier adds a coverage-guided libFuzzer stage (12 workers x 300 s) over a structure decoder. Two genuine defects remain open as known findings (bracket-leading operand after `=>`; `let` before a top-level && / || value), one was fixed (table priority)."),
+   text="All 23 operator spellings with every flag combination are enumerated pairwise (about 4 200 inputs) and 40 000 (quick) / 1 000 000 (thorough) random structures with adversarial operands (operator look-alikes inside groups, macros, literals, closure return types, turbofish, nested generics, if / match) are rendered and parsed back; proptest shrinks a failure to a minimal input; the thorough tier adds a coverage-guided libFuzzer stage (12 workers x 300 s) over a structure decoder. A last stage (engine R) compiles typed chains whose initial values and expression operands reach the real proc-macros as `expr` fragments of a `macro_rules!` wrapper - one token tree each, with operator look-alikes at their top level - and compares them with the documented chain. Two genuine defects remain open as known findings (bracket-leading operand after `=>`; `let` before a top-level && / || value), one was fixed (table priority)."),
  "C15": dict(level="exploration", engine="L", design="6/C15",
    technique="property-based testing / fuzzing in process (proptest): token soups over the DSL vocabulary, every listed structural fault applied to generated valid programs, token-level edits of valid programs; oracle = outcome class + syntactic validity of the output (syn)",
    text="Each input is lexed, parsed and expanded under catch_unwind with one of the 8 configurations; the outcome must be a valid expression, a syn error or one of the generator's two configuration messages, and fault inputs must be rejected. 420 000 inputs in the quick tier, a third of which reach the generator; the thorough tier adds a coverage-guided libFuzzer stage (12 workers x 300 s) over a token-soup decoder."),
@@ -108,7 +108,7 @@ def main():
         ],
         "checks": checks,
         "not_applicable": na,
-        "notes": "All checks read VERIF_SEED / VERIF_TIER (or --seed / --tier). Exit 0 held, 1 VIOLATION line printed, 2 infrastructure or inconclusive. Fix commits in /repo: ffea8f9 (C05), c046cce (C15), 3010633 (C14), 078aaab (C01), 8ddb025 (C16); open findings and fixed entries in known_findings.json.",
+        "notes": "All checks read VERIF_SEED / VERIF_TIER (or --seed / --tier). Exit 0 held, 1 VIOLATION line printed, 2 infrastructure or inconclusive. Fix commits in /repo: ffea8f9 (C05), c046cce (C15), 3010633 (C14), 078aaab and e951224 (C01), 8ddb025 (C16); open findings and fixed entries in known_findings.json.",
     }
     json.dump(m, open(os.path.join(ROOT, "MANIFEST.json"), "w"), indent=1)
     print("MANIFEST.json:", len(checks), "checks,", len(na), "not applicable")
